@@ -1,4 +1,5 @@
 """Extra phases of some checks (registry concurrency for C17, concurrent owners for C16)."""
+import hashlib
 import json
 import os
 import re
@@ -11,24 +12,103 @@ RACE_RE = re.compile(r"WARNING: DATA RACE")
 FATAL_RE = re.compile(r"fatal error: concurrent map (read and map write|writes|iteration and map write)")
 
 
-def _registry_run(ctx, vdr, d, inp, tag):
+def styles_phase(ctx):
+    """C19 under concurrency: bursts of registrations while other goroutines list the styles; after each burst the
+    style listing must show every registered name (validated by RegistryTrace.tla, facet reg.styles)."""
+    wd, tier, seed = ctx["wd"], ctx["tier"], ctx["seed"]
+    d = os.path.join(wd, "registry")
+    os.makedirs(d)
+    vdr = vlib.build_driver(d, race=True)
+    inp = os.path.join(d, "input.ndjson")
+    rounds = 400 if tier == "quick" else 4000
+    with open(inp, "w") as f:
+        for i in range(4):
+            f.write(json.dumps({"burst": {"rounds": rounds // 4, "names": 6, "seed": seed * 10 + i}}) + "\n")
+    recs, nl, st, lib, fatal = _registry_run(ctx, vdr, d, inp, "a", need=("reg.register", "init", "styles"))
+    ctx["nscen"] += rounds
+    ctx["nops"] += st.get("ops", 0)
+    ctx["nlines"] += nl
+    ctx["hashes"].add("bursts:" + st.get("content", ""))
+    log("style listing under concurrency: %d bursts of 6 registrations with two goroutines listing the styles" % rounds)
+    viol = []
+    if fatal or lib:
+        text = fatal or ("WARNING: DATA RACE" + "\nWARNING: DATA RACE".join(lib))
+        log("MISMATCH the race detector / Go runtime reported a data race inside the library while styles were listed; first:\n%s" % text[:1500])
+        viol.append(_phase_artifact(ctx, "C19-race.json", "registry", text))
+    if recs:
+        log("MISMATCH style listing facets=%s rounds=%d first=%s" % (sorted({r["facet"] for r in recs}), len(recs), json.dumps(recs[0])[:800]))
+        viol.append(_phase_artifact(ctx, "C19-styles.json", "registry", "", {"mismatches": recs[:10]}))
+    shutil.rmtree(d, ignore_errors=True)
+    return viol
+
+
+def _library_race(text):
+    """Splits the race detector's output into reports; returns those with a frame inside the library."""
+    reports = text.split("WARNING: DATA RACE")[1:]
+    lib = []
+    for r in reports:
+        body = r.split("==================")[0]
+        if "/repo/" in body or "go.pennock.tech/tabular" in body:
+            lib.append(body)
+    return reports, lib
+
+
+def _library_fatal(out):
+    """The Go runtime aborted the process for unsynchronised map access, and the aborting goroutine (the first
+    one of the dump) was inside the library."""
+    m = FATAL_RE.search(out)
+    if not m:
+        return False
+    first = out[m.end():].split("\n\ngoroutine ")
+    head = first[0] + ("\n\ngoroutine " + first[1] if len(first) > 1 else "")
+    return "go.pennock.tech/tabular" in head or "/repo/" in head
+
+
+def _phase_artifact(ctx, name, mode, text, extra=None):
+    """Replay artifact of a phase violation: JSON saying how to run that phase again (bin/check --replay)."""
+    rdir = os.path.join(ctx["wd"], "replay")
+    os.makedirs(rdir, exist_ok=True)
+    rp = os.path.join(rdir, name)
+    d = {"property": ctx["prop"], "mode": mode, "seed": ctx["seed"], "tier": ctx["tier"], "report": text[-40000:]}
+    d.update(extra or {})
+    json.dump(d, open(rp, "w"), indent=1)
+    return rp
+
+
+REG_OWN = {"C17": ("reg.named", "reg.list", "reg.register", "reg.early"), "C19": ("reg.styles", "reg.early")}
+
+
+def _registry_run(ctx, vdr, d, inp, tag, need=("reg.named", "reg.list", "reg.register", "init", "styles")):
+    """-> (mismatch records, lines, driver stats, library race reports, fatal text)"""
     tp = os.path.join(d, "regtrace-%s.ndjson" % tag)
     env = vlib.goenv()
     env["GORACE"] = "halt_on_error=0 exitcode=0"
     early = ["utf8-light", "none", "ascii-simple", "utf8-heavy"][ctx["seed"] % 4]
     p = vlib.run([vdr, "-mode", "registry", "-early", early, "-in", inp, "-out", tp], env=env, timeout=1800, check=False)
     out = p.stdout or ""
+    reports, lib = _library_race(out)
     if p.returncode != 0:
-        if FATAL_RE.search(out) and ("/repo/" in out or "go.pennock.tech/tabular" in out):
+        if _library_fatal(out):
             # the Go runtime itself aborted the process: unsynchronised map access inside the library
-            return [], 0, {}, 1 + len(RACE_RE.findall(out)), out
+            return [], 0, {}, lib, out
         raise Infra("registry driver failed (%d): %s" % (p.returncode, out[-3000:]))
+    if reports and not lib:
+        raise Infra("the race detector reported a race without a library frame (driver bug?):\n" + reports[0][:3000])
     m = re.search(r'vdrive: (\{.*\})', out)
-    st = json.loads(m.group(1)) if m else {}
-    races = len(RACE_RE.findall(out))
-    racetxt = out if races else ""
+    if not m:
+        raise Infra("the registry driver printed no statistics")
+    st = json.loads(m.group(1))
     recs, nl = vlib.validate(tp, d, module="RegistryTrace", nshards=1)
-    return recs, nl, st, races, racetxt
+    cmp_ = dict(vlib.LAST_COMPARED)
+    for f in need:
+        if not cmp_.get(f):
+            raise Infra("the registry trace holds no %s comparison" % f)
+    seen = sum(cmp_.get(f, 0) for f in ("reg.named", "reg.list", "reg.register"))
+    if seen != st.get("ops"):
+        raise Infra("the driver performed %s registry operations, the validator saw %d" % (st.get("ops"), seen))
+    recs = [r for r in recs if r["facet"] in REG_OWN[ctx["prop"]]]
+    st["content"] = hashlib.sha1(open(tp, "rb").read()).hexdigest()
+    return recs, nl, st, lib, ""
 
 
 def registry_proofs(ctx, d):
@@ -54,8 +134,9 @@ def registry_proofs(ctx, d):
 
 
 def registry_phase(ctx):
-    """C17 concurrency: forced schedules from MCRegistry, free-running stress, mutual-exclusion probe;
-    everything under the race detector; validated by RegistryTrace.tla."""
+    """C17 concurrency: forced schedules from MCRegistry (run sequentially, in the model's linearization order),
+    free-running stress with a quiescent read-back; everything under the race detector; the call/return log is
+    validated by RegistryTrace.tla."""
     wd, tier, seed = ctx["wd"], ctx["tier"], ctx["seed"]
     d = os.path.join(wd, "registry")
     os.makedirs(d)
@@ -81,58 +162,44 @@ def registry_phase(ctx):
                     if nforced % 97 == 1 and len(ctx["samples"]) < 8:
                         ctx["samples"].append({"source": "MCRegistry forced schedule", "scenario": json.loads(json.loads(line))})
             shutil.rmtree(md, ignore_errors=True)
+        if nforced == 0:
+            raise Infra("MCRegistry generated no forced schedule")
         nstress = 3 if tier == "quick" else 40
         for i in range(nstress):
             f.write(json.dumps({"stress": {"g": 8 if tier == "quick" else 16, "n": 200 if tier == "quick" else 500, "seed": seed * 100 + i}}) + "\n")
-        f.write(json.dumps({"probe": 1}) + "\n")
-    log("registry: %d forced schedules from the model, %d stress runs, 1 probe matrix" % (nforced, nstress))
+    log("registry: %d forced schedules from the model (each a linearization order, run sequentially), %d free-running stress runs"
+        % (nforced, nstress))
     if tier != "quick":
         info = registry_proofs(ctx, d)
         ctx["mc_info"].append({"module": "RegistryProof / RegistryInd", "constants": {}, **info})
         log("registry proofs: %s" % info)
-    recs, nl, st, races, racetxt = _registry_run(ctx, vdr, d, inp, "a")
+    recs, nl, st, lib, fatal = _registry_run(ctx, vdr, d, inp, "a")
     ctx["nscen"] += st.get("scenarios", 0)
     ctx["nops"] += st.get("ops", 0)
     ctx["nlines"] += nl
-    ctx["hashes"].update("reg%d" % i for i in range(st.get("scenarios", 0)))
+    # distinct executions: the forced schedules are distinct by construction; a stress run is distinct by what happened in it
+    ctx["hashes"].update("forced%d" % i for i in range(nforced))
+    ctx["hashes"].add("stress:" + st.get("content", ""))
     viol = []
-    rdir = os.path.join(wd, "replay")
-    if races:
-        os.makedirs(rdir, exist_ok=True)
-        rp = os.path.join(rdir, "C17-race.txt")
-        open(rp, "w").write(racetxt[-20000:])
-        log("MISMATCH the race detector / Go runtime reported %d data race(s) (or a fatal concurrent map access) during the registry runs" % races)
-        viol.append(rp)
+    if fatal or lib:
+        text = fatal or ("WARNING: DATA RACE" + "\nWARNING: DATA RACE".join(lib))
+        log("MISMATCH the race detector / Go runtime reported %s inside the library during the registry runs; first:\n%s"
+            % ("a fatal concurrent map access" if fatal else "%d data race(s)" % len(lib), text[:1500]))
+        viol.append(_phase_artifact(ctx, "C17-race.json", "registry", text))
     if recs:
-        # reproduce: deterministic parts (forced, probe) must show again; stress may need retries
+        # reproduce: the sequential parts (forced schedules, read-back) must show again; stress may need retries
         again = []
         for k in range(5):
-            again, _, _, r2, _ = _registry_run(ctx, vdr, d, inp, "b%d" % k)
-            if again:
+            again, _, _, _, f2 = _registry_run(ctx, vdr, d, inp, "b%d" % k)
+            if again or f2:
                 break
         if not again:
             raise Infra("registry mismatch (%s) did not reproduce in 5 reruns" % json.dumps(recs[0])[:500])
-        os.makedirs(rdir, exist_ok=True)
-        rp = os.path.join(rdir, "C17-registry.json")
-        shutil.copyfile(inp, os.path.join(rdir, "C17-registry-input.ndjson"))
-        json.dump({"property": "C17", "mode": "registry", "input": os.path.join(rdir, "C17-registry-input.ndjson"),
-                   "mismatches": recs[:20]}, open(rp, "w"), indent=1)
         facets = sorted({r["facet"] for r in recs})
         log("MISMATCH registry facets=%s first=%s" % (facets, json.dumps(recs[0])[:800]))
-        viol.append(rp)
+        viol.append(_phase_artifact(ctx, "C17-registry.json", "registry", "", {"mismatches": recs[:20]}))
     shutil.rmtree(d, ignore_errors=True)
     return viol
-
-
-def _library_race(text):
-    """Splits the race detector's output into reports; returns those with a frame inside the library."""
-    reports = text.split("WARNING: DATA RACE")[1:]
-    lib = []
-    for r in reports:
-        body = r.split("==================")[0]
-        if "/repo/" in body or "go.pennock.tech/tabular" in body:
-            lib.append(body)
-    return reports, lib
 
 
 def conc_phase(ctx):
@@ -178,30 +245,24 @@ def conc_phase(ctx):
     p = vlib.run([vdr, "-mode", "conc", "-in", sp, "-out", tp, "-facets", "none", "-rounds", str(rounds), "-group", str(group),
                   "-subst", str(seed)], env=env, timeout=3000, check=False)
     out = p.stdout or ""
+    reports, lib = _library_race(out)
     if p.returncode != 0:
-        if FATAL_RE.search(out) and ("/repo/" in out or "go.pennock.tech/tabular" in out):
-            rdir = os.path.join(wd, "replay")
-            os.makedirs(rdir, exist_ok=True)
-            rp = os.path.join(rdir, "%s-fatal.txt" % ctx["prop"])
-            open(rp, "w").write(out[-40000:])
+        if _library_fatal(out):
             log("MISMATCH the Go runtime aborted the concurrent run: unsynchronised map access inside the library")
             shutil.rmtree(d, ignore_errors=True)
-            return [rp]
+            return [_phase_artifact(ctx, "%s-fatal.json" % ctx["prop"], "conc", out)]
         raise Infra("concurrent driver failed (%d): %s" % (p.returncode, out[-3000:]))
     m = re.search(r'vdrive: (\{.*\})', out)
-    st = json.loads(m.group(1)) if m else {}
+    if not m:
+        raise Infra("the concurrent driver printed no statistics")
+    st = json.loads(m.group(1))
     log("concurrent: %d scenarios solo, then %d rounds in groups of %d goroutines" % (len(scens), rounds, group))
-    reports, lib = _library_race(out)
     viol = []
-    rdir = os.path.join(wd, "replay")
     if reports and not lib:
         raise Infra("the race detector reported a race without a library frame (driver bug?):\n" + reports[0][:3000])
     if lib:
-        os.makedirs(rdir, exist_ok=True)
-        rp = os.path.join(rdir, "%s-race.txt" % ctx["prop"])
-        open(rp, "w").write("WARNING: DATA RACE" + "\nWARNING: DATA RACE".join(lib)[:40000])
         log("MISMATCH the race detector reported %d data race(s) with library frames; first:\n%s" % (len(lib), lib[0][:1500]))
-        viol.append(rp)
+        viol.append(_phase_artifact(ctx, "%s-race.json" % ctx["prop"], "conc", "WARNING: DATA RACE" + "\nWARNING: DATA RACE".join(lib)))
     recs, nl = vlib.validate(tp, d, module="TabularTrace")
     ctx["nscen"] += st.get("scenarios", 0)
     ctx["nops"] += st.get("ops", 0)
@@ -209,13 +270,8 @@ def conc_phase(ctx):
     own = [r for r in recs if r["facet"] in ctx["plan"]["own"] or r["facet"] == "res.panic"]
     if own:
         # a mismatch in a solo run is deterministic; one in a concurrent round is kept as observed
-        os.makedirs(rdir, exist_ok=True)
-        rp = os.path.join(rdir, "%s-conc.json" % ctx["prop"])
-        shutil.copyfile(sp, os.path.join(rdir, "%s-conc-scenarios.ndjson" % ctx["prop"]))
-        json.dump({"property": ctx["prop"], "mode": "conc", "scenarios": os.path.join(rdir, "%s-conc-scenarios.ndjson" % ctx["prop"]),
-                   "rounds": rounds, "group": group, "mismatches": [{k: v for k, v in r.items() if k != "shard"} for r in own[:10]]},
-                  open(rp, "w"), indent=1)
         log("MISMATCH concurrent facets=%s scenarios=%d first=%s" % (sorted({r["facet"] for r in own}), len(own), json.dumps(own[0])[:800]))
-        viol.append(rp)
+        viol.append(_phase_artifact(ctx, "%s-conc.json" % ctx["prop"], "conc", "",
+                                    {"rounds": rounds, "group": group, "mismatches": [{k: v for k, v in r.items() if k != "shard"} for r in own[:10]]}))
     shutil.rmtree(d, ignore_errors=True)
     return viol
